@@ -1,12 +1,15 @@
 #!/bin/bash
-# tools_mut.sh <patch> <Cxx> [tier]: apply a seeded change to /repo, run a check, undo the change.
-# The evidence file and replays written by the run against the changed tree are discarded.
+# tools_mut.sh <patch> <Cxx> [tier]: run a check against a seeded change WITHOUT touching /repo: the patch is applied to a
+# scratch worktree of /repo's HEAD and the check is pointed at it with VERIF_REPO.  The evidence file written by that run is
+# discarded and the generated model is put back to the unchanged tree afterwards.
 set -u
 patch=$1; pid=$2; tier=${3:-quick}
+wt=$(mktemp -d /tmp/toolsmut_XXXXXX); rmdir $wt
+git -C /repo worktree add --detach $wt HEAD >/dev/null 2>&1 || exit 2
 cp /verif/evidence/$pid.json /tmp/evidence_$pid.bak 2>/dev/null
-git -C /repo apply "$patch" || exit 2
-( cd /verif && /venv/bin/python check.py $pid $tier ); rc=$?
-git -C /repo checkout -- . ; git -C /repo clean -fdq src
+git -C $wt apply "$patch" || { git -C /repo worktree remove --force $wt; exit 2; }
+( cd /verif && VERIF_REPO=$wt /venv/bin/python check.py $pid $tier ); rc=$?
+git -C /repo worktree remove --force $wt; git -C /repo worktree prune
 cp /tmp/evidence_$pid.bak /verif/evidence/$pid.json 2>/dev/null
 ( cd /verif && /venv/bin/python check.py --setup >/dev/null 2>&1 )   # generated model back to the unchanged tree
 echo "rc=$rc"
